@@ -28,8 +28,8 @@ EPS = 2.0 ** -52
 TOL_MODEL = 2.0 ** -30          # scalar model vs float64 (relative, floor 1)
 FEAS_K = 64                     # one-step residual <= FEAS_K * eps * sum |terms|
 COST_TOL = 1e-11                # |reported cost - sum of stage costs| <= COST_TOL * sum |terms|
-GAP_TOL = 1e-9                  # J(u) - J* <= GAP_TOL * sum |terms|
-GRAD_TOL = 1e-6                 # |dJ/du_t,i| <= GRAD_TOL * sum |terms of that derivative|
+GAP_TOL = 1e-12                 # J(u) - J* <= GAP_TOL * sum |terms|
+GRAD_TOL = 1e-9                 # |dJ/du_t,i| <= GRAD_TOL * sum |terms of that derivative|
 MP_PREC = 400
 
 K_STALE = 'LQR.forward:LTV:systime!=0:T>=2:suboptimal'
@@ -257,7 +257,7 @@ def cost_of(co, Qs, ps, x0, us):
     return J, S, xs
 
 
-def grad_of(co, Qs, ps, xs, us):
+def grad_of(co, Qs, ps, xs, us, M0=0):
     """dJ/du_t (adjoint recursion) and the sum of |terms| of each component"""
     mp = _mp()
     T = len(Qs)
@@ -266,7 +266,7 @@ def grad_of(co, Qs, ps, xs, us):
     g, gs = [None] * T, [None] * T
     # the rounding error of step t is inherited from the earlier steps: magnitudes include the
     # running maximum of the trajectory so far
-    run, M = 0, [0] * T
+    run, M = M0, [0] * T
     for t in range(T):
         M[t] = run
         run = max([run] + [abs(v) for v in xs[t]] + [abs(v) for v in us[t]])
@@ -326,10 +326,17 @@ def check_item(P, S, bi, x, u, cost, rng=None, clauses=('init', 'feasible', 'cos
         fails.append(('cost', 'reported cost %r, sum of stage costs along the returned trajectory %r' % (float(cb), float(Jsum))))
     if 'optimal' in clauses and T > 0:
         J, S_, xs = cost_of(co, Qs, ps, x0, ui)
+        # the solver works in deviations from the nominal trajectory: its rounding errors scale
+        # with the magnitudes of that trajectory too
+        nc = ui[0].rows
+        unom = [mp.matrix(r) for r in S['u'][bi]] if S.get('u') is not None else [mp.zeros(nc, 1)] * T
+        _, Snom, xnom = cost_of(co, Qs, ps, x0, unom)
+        S_ = S_ + Snom
+        M0 = max([abs(v) for w in xnom[:T] for v in w] + [abs(v) for w in unom for v in w])
         Jstar, ustar = oracle_min(co, Qs, ps, x0)
         gap = J - Jstar
         meas['gap'] = float(gap / (S_ + mp.mpf(2) ** -1000))
-        g, gs = grad_of(co, Qs, ps, xs, ui)
+        g, gs = grad_of(co, Qs, ps, xs, ui, M0)
         wg, where = 0, None
         for t in range(T):
             for i in range(g[t].rows):
@@ -347,7 +354,7 @@ def check_item(P, S, bi, x, u, cost, rng=None, clauses=('init', 'feasible', 'cos
                 mag = 10.0 ** rng.randint(-4, 0)
                 up = [w + mp.matrix([mag * rng.uniform(-1, 1) * (1 + abs(float(v))) for v in w]) for w in ui]
                 Jp, Sp, _ = cost_of(co, Qs, ps, x0, up)
-                if Jp < J - GAP_TOL * Sp:
+                if Jp < J - GAP_TOL * (Sp + Snom):
                     fails.append(('optimal', 'a perturbation of relative size %g lowers the cost from %r to %r' % (mag, float(J), float(Jp))))
                     break
     return fails, meas
@@ -356,7 +363,7 @@ def check_item(P, S, bi, x, u, cost, rng=None, clauses=('init', 'feasible', 'cos
 def classify(P, S, t_before, fails, mpc=False):
     """stable violation key for a failing solve"""
     cl = sorted({c for c, _ in fails})
-    if mpc and P['kind'] == 'ltv' and cl == ['optimal']:
+    if mpc and P['kind'] == 'ltv' and (cl == ['optimal'] or (S['T'] == 1 and cl == ['feasible'])):
         return K_MPCLTV
     if not mpc and P['kind'] == 'ltv' and t_before != 0:
         if S['T'] >= 2 and cl == ['optimal']:
@@ -499,8 +506,8 @@ def run(ctx):
     ctx.rule = RULE
     rng = ctx.rng
     g = torch.Generator().manual_seed(ctx.seed * 7919 + 14)
-    ctx.assumptions = ['scalar route tolerance TOL_MODEL=2^-30 relative (floor 1); general route: FEAS_K=64 eps, COST_TOL=1e-11, GAP_TOL=1e-9, GRAD_TOL=1e-6, '
-                       'all relative to the sum of the absolute values of the terms; oracle arithmetic: mpmath %d bits' % MP_PREC]
+    ctx.assumptions = ['scalar route tolerance TOL_MODEL=2^-30 relative (floor 1); general route: FEAS_K=64 eps, COST_TOL=1e-11, GAP_TOL=1e-12, GRAD_TOL=1e-9, '
+                       'all relative to the sum of the absolute values of the terms (optimality: of the returned and of the nominal trajectory); oracle arithmetic: mpmath %d bits' % MP_PREC]
     worst = dict(feas=0.0, cost=0.0, gap=0.0, grad=0.0)
     tsec, tlast = {}, [time.time()]
 
@@ -590,13 +597,13 @@ def run(ctx):
     for sysd in (lti1, ltv3):
         add_history(sysd, 0, [(asym, 1.0, None, 1)], 'asymmetric-Q')
     # random histories
-    for k in range(ctx.scale(90, 900)):
-        long = rng.random() < 0.2
+    for k in range(ctx.scale(80, 800)):
+        long = rng.random() < 0.12
         sysd = gen_scalar_sys(rng, amax=1.25 if long else 2.0)
         t0 = rng.choice([0, 0, rng.randint(-3, 12)])
         solves = []
         for j in range(rng.choice([1, 1, 2, 3])):
-            T = rng.randint(8, 11) if long else rng.randint(1, 7)      # exact rationals over Q grow like T^3 bits
+            T = rng.randint(8, 10) if long else rng.randint(1, 7)      # exact rationals over Q grow like T^3 bits
             sym = rng.random() < 0.85
             stages = [gen_stage(rng, sym=sym) for _ in range(T)]
             u = None if rng.random() < 0.4 else [dy(rng, 4, -2, 2) for _ in range(T)]
@@ -692,7 +699,7 @@ def run(ctx):
     nprob = ctx.scale(70, 400)
     directed = [((1, 1, 1, 1), 'lti'), ((1, 1, 1, 2), 'ltv'), ((2, 2, 1, 3), 'lti'), ((3, 3, 2, 4), 'ltv'), ((1, 6, 6, 20), 'lti'),
                 ((1, 1, 6, 5), 'ltv'), ((3, 6, 1, 6), 'ltv'), ((2, 4, 3, 5), 'lti'), ((1, 2, 2, 20), 'ltv'), ((3, 2, 3, 1), 'ltv')]
-    work, budget = 0, ctx.scale(9e5, 3e7)        # deterministic work budget (about 1 s per 25000 units)
+    work, budget = 0, ctx.scale(6e5, 3e7)        # deterministic work budget (about 1 s per 25000 units)
     for k in range(nprob):
         if k >= len(directed) and work > budget:
             break
